@@ -1,5 +1,7 @@
 """C01 — emitted frames are the NxScope serial wire format and round-trip."""
 import binascii
+import contextlib
+import logging
 
 from common import Prop, hexs, unhex, exc_name
 from ref import ref_frame, ref_crc16_xmodem
@@ -14,6 +16,34 @@ assert binascii.crc_hqx(_probe, 0) == ref_crc16_xmodem(_probe)
 def _sf():
     from nxslib.proto.serialframe import SerialFrame
     return SerialFrame()
+
+
+@contextlib.contextmanager
+def debug_logging(on=True):
+    """the application-side dimension of every library call: the "nxslib" logger at DEBUG (what an application that
+    wants the library's diagnostics does) instead of the default (no level set, the check pipeline silences logging
+    altogether).  Records go to a NullHandler, nothing is printed.  `on=False`: the pipeline's default, unchanged."""
+    if not on:
+        yield
+        return
+    lg = logging.getLogger("nxslib")
+    old = (lg.level, lg.propagate, logging.root.manager.disable)
+    h = logging.NullHandler()
+    lg.addHandler(h)
+    lg.propagate = False
+    lg.setLevel(logging.DEBUG)
+    logging.disable(logging.NOTSET)
+    try:
+        assert lg.isEnabledFor(logging.DEBUG)
+        yield
+    finally:
+        lg.removeHandler(h)
+        lg.setLevel(old[0])
+        lg.propagate = old[1]
+        logging.disable(old[2])
+
+
+LOGGING_MODES = (("default logging", False), ('logging.getLogger("nxslib").setLevel(logging.DEBUG)', True))
 
 
 def rb(rng, n):
@@ -31,17 +61,24 @@ def wire(fid, p):
 
 # payload lengths around the byte boundaries of the 16-bit length field (total = payload + 6)
 LEN16 = [249, 250, 251, 255, 256, 257, 32761, 32762, 32763, 32767, 32768, 32769]
+# payload lengths whose total length has a byte equal to the start byte: 0x0055, 0x0155, 0x0255, 0x5500, 0x5555, 0x5655
+LEN55 = [79, 335, 591, 21754, 21839, 22095]
 
 
 class C01(Prop):
     id = "C01"
     lean_module = "NxsModel.Props.C01"
-    rule = ("frame create/decode over ids 0..8 (plus 9..300) x payload lengths 0..300, lengths around the byte "
+    rule = ("frame create/decode over ids 0..8 (plus 9..300, correspondence only: the oracle judges ids 0..8, the "
+            "property's quantifier) x payload lengths 0..300, lengths around the byte "
             "boundaries of the length field (249..257, 32761..32769), boundary lengths 65527..65531, random lengths "
-            "(every create with its decode twin); None vs empty payload on ids 0..8, 9, 127, 255, 256, 300; runs of "
+            "(every create with its decode twin); total lengths with a byte equal to the start byte (0x55, 0x155, 0x255, "
+            "0x5500, 0x5555, 0x5655) and payloads that start with / consist of 0x55; None vs empty payload on ids 0..8, "
+            "9, 127, 255, 256, 300; runs of "
             "creates on ONE long-lived SerialFrame whose payloads share id, length and the first 8..64 bytes and "
-            "differ later; crc over random strings; distinct = distinct (op,input,output); non-trivial = payload "
-            "non-empty or error outcome")
+            "differ later; crc over random strings; LOGGING DIMENSION: every create / decode case is executed twice by "
+            "the correspondence and by the oracle, under default logging and with the 'nxslib' logger at DEBUG (both "
+            "must give the model's answer), every second long-lived-encoder sequence runs at DEBUG; "
+            "distinct = distinct (op,input,output); non-trivial = payload non-empty or error outcome")
     assumptions = ["crcmod (third party) is validated against the Lean CRC by the `frame crc` cases, not verified",
                    "CPython struct is modelled by Struct.lean (cross-checked by the same cases)"]
 
@@ -72,6 +109,16 @@ class C01(Prop):
                 p = rb(rng, n)
                 yield f"frame create {fid} {hexs(p)}", "create-len16"
                 yield f"frame decode {hexs(wire(fid, p))}", "decode-len16"
+        # the start byte inside the frame: as the low / high byte of the length field, as first payload byte, everywhere
+        for i, n in enumerate(LEN55):
+            for fid in (range(9) if T else ((1, 7) if n < 1000 else ((i * 2 + rng.randrange(9)) % 9,))):
+                for p in ((rb(rng, n), b"\x55" + rb(rng, n - 1)) if n < 1000 else (rb(rng, n),)):
+                    yield f"frame create {fid} {hexs(p)}", "create-len55"
+                    yield f"frame decode {hexs(wire(fid, p))}", "decode-len55"
+        for fid in range(9):
+            for p in (b"\x55", b"\x55\x55", b"\x55" * 7, b"\x55" + rb(rng, 5), bytes([0x55, 6, 0, 2, 0x5b, 0x9c]), b"\x55" * 79):
+                yield f"frame create {fid} {hexs(p)}", "create-sof-payload"
+                yield f"frame decode {hexs(wire(fid, p))}", "decode-sof-payload"
         for n in (65527, 65528, 65529, 65530, 65531, 70000):
             p = rb(rng, n)
             yield f"frame create {rng.randrange(9)} {hexs(p)}", "create-boundary"
@@ -116,6 +163,18 @@ class C01(Prop):
         return out
 
     def impl(self, line):
+        """the canonical answer under default logging; the same call is repeated with the 'nxslib' logger at DEBUG and a
+        different answer there is reported in place of the canonical one (the model knows no logging level)"""
+        a = self.impl1(line)
+        if line.split(" ")[1] == "crc":
+            return a
+        with debug_logging():
+            b = self.impl1(line)
+        if a != b:
+            return f"logging-dependent: default[{a[:120]}] nxslib-logger-at-DEBUG[{b[:120]}]"
+        return a
+
+    def impl1(self, line):
         t = line.split(" ")
         if t[1] == "create":
             fid = int(t[2])
@@ -137,6 +196,18 @@ class C01(Prop):
         return not line.endswith(" -")
 
     def oracle(self, line, impl_out=None):
+        """ids 0..8 only (the quantifier of the property); judged under default logging and with the 'nxslib' logger at DEBUG"""
+        for name, on in LOGGING_MODES:
+            with debug_logging(on):
+                v = self.oracle1(line)
+            if v:
+                v["logging"] = name
+                if on:
+                    v["what"] += f" [with {name}; the same call is right under default logging]"
+                return v
+        return None
+
+    def oracle1(self, line):
         t = line.split(" ")
         sf = _sf()
         if t[1] == "create":
@@ -148,21 +219,22 @@ class C01(Prop):
             except Exception as e:
                 got = e
             if len(p) > 65529:
+                if fid > 8:
+                    return None
                 if not isinstance(got, Exception):
                     return {"key": "emitted-oversize", "what": f"payload of {len(p)} bytes was not refused",
                             "expected": "an exception", "observed": hexs(got[:8]) + "..."}
                 return None
-            if fid > 255:
-                return None
+            if fid > 8:
+                return None          # the property quantifies over ids 0..8; what larger ids do is the correspondence's business
             exp = wire(fid, p)
             if isinstance(got, Exception) or got != exp:
                 return {"key": "wire-format", "what": f"frame_create({fid}, {len(p)} bytes) is not the NxScope serial encoding",
                         "expected": hexs(exp), "observed": repr(got) if isinstance(got, Exception) else hexs(got)}
-            if fid <= 8:
-                r = sf.frame_decode(got)
-                if r.err != 0 or int(r.fid) != fid or r.data != p:
-                    return {"key": "round-trip", "what": "decode(create(id, payload)) != (id, payload)",
-                            "expected": f"{fid} {hexs(p)}", "observed": f"err={r.err} fid={r.fid} data={hexs(r.data)}"}
+            r = sf.frame_decode(got)
+            if r.err != 0 or int(r.fid) != fid or r.data != p:
+                return {"key": "round-trip", "what": "decode(create(id, payload)) != (id, payload)",
+                        "expected": f"{fid} {hexs(p)}", "observed": f"err={r.err} fid={r.fid} data={hexs(r.data)}"}
             return None
         if t[1] == "decode":
             d = unhex(t[2])
@@ -178,9 +250,18 @@ class C01(Prop):
 
     # -- history: one long-lived SerialFrame / Parser, judged by the independent encoder --------------------------------
     @staticmethod
-    def _run_sequence(ops):
+    def _run_sequence(ops, debug=False):
         """execute [(kind, ...)] on ONE SerialFrame and ONE Parser; return the first violation or None.
-        ops: ("create", fid, payload-hex|"none") | ("div", [divs]) | ("enable", [0/1...])"""
+        ops: ("create", fid, payload-hex|"none") | ("div", [divs]) | ("enable", [0/1...]); debug: 'nxslib' logger at DEBUG"""
+        with debug_logging(debug):
+            v = C01._run_sequence1(ops)
+        if v and debug:
+            v["logging"] = LOGGING_MODES[1][0]
+            v["what"] += f" [with {LOGGING_MODES[1][0]}]"
+        return v
+
+    @staticmethod
+    def _run_sequence1(ops):
         from nxslib.proto.parse import Parser
         sf = _sf()
         ps = Parser()
@@ -227,7 +308,8 @@ class C01(Prop):
         T = tier == "thorough"
         viol = []
         n_ops = 0
-        for _ in range(60 if T else 12):
+        for it in range(60 if T else 12):
+            dbg = bool(it % 2)
             ops = []
             for _ in range(rng.randrange(2, 5)):
                 fid = rng.randrange(9)
@@ -251,10 +333,10 @@ class C01(Prop):
             if rng.random() < 0.3:
                 rng.shuffle(ops)
             n_ops += len(ops)
-            v = self._run_sequence(ops)
+            v = self._run_sequence(ops, dbg)
             if v:
                 seq = ops[:v["step"] + 1]
-                v1 = self._run_sequence([seq[-1]])
+                v1 = self._run_sequence([seq[-1]], dbg)
                 if v1:
                     # not a matter of history: the call is wrong on a fresh encoder too
                     v, seq = v1, [seq[-1]]
@@ -263,11 +345,12 @@ class C01(Prop):
                 else:
                     # minimise: one earlier call + the failing call is usually enough
                     for j in range(len(seq) - 1):
-                        v2 = self._run_sequence([seq[j], seq[-1]])
+                        v2 = self._run_sequence([seq[j], seq[-1]], dbg)
                         if v2:
                             v, seq = v2, [seq[j], seq[-1]]
                             break
                 v["sequence"] = [list(o) for o in seq]
+                v["debug_logging"] = dbg
                 v["case"] = f"sequence of {len(seq)} calls on one SerialFrame / Parser (see `sequence`)"
                 viol.append(v)
                 break
@@ -276,12 +359,12 @@ class C01(Prop):
 
     def replay(self, obj):
         if "sequence" in obj:
-            return self._run_sequence([tuple(o) for o in obj["sequence"]])
+            return self._run_sequence([tuple(o) for o in obj["sequence"]], bool(obj.get("debug_logging")))
         return self.oracle(obj["case"])
 
     def search_cases(self, rng):
         for fid in range(9):
-            for n in list(range(0, 20)) + [255, 256, 65529, 65530]:
+            for n in list(range(0, 20)) + [33, 79, 100, 255, 256, 335, 65529, 65530]:
                 yield f"frame create {fid} {hexs(rb(rng, n))}", "search"
 
 
